@@ -52,8 +52,8 @@ class Recorder:
         import sympy as sp
         val, dim = payload["result"]
         vec = project_dim(dim)
-        if vec is None:
-            return None
+        if vec is None or any(abs(n) >= 10000 or d >= 10000 for n, d in vec):
+            return None     # not interpretable, or floating-point exponents (x**1.4: outside exact dimension arithmetic)
         val = sp.sympify(val)
         if kind == "collect_quantity" or val.is_number:
             c, fr = _cls(val)
